@@ -93,6 +93,9 @@ type MNode struct {
 	// transactions: CVE-2012-2459).  It is handed to the node first and must be refused without poisoning
 	// the genuine block that follows.
 	PreRaw []byte
+	// PoolTxs are transactions that are not in the block but that the (stand-in) mempool has verified when the
+	// block arrives, e.g. the complete form of a transaction the block carries without its witness.
+	PoolTxs []*wire.Tx
 }
 
 // Hooks lets other checks observe the run.
@@ -185,6 +188,7 @@ func NewCfg(ps ParamSpec, opts env.Options, cfg Config) (*Sim, error) {
 			return nil, err
 		}
 	}
+	installChecker()
 	vouchMu.Lock()
 	vouched = map[[32]byte]bool{} // per history: what the stand-in mempool has verified (see vouch)
 	vouchMu.Unlock()
@@ -580,17 +584,39 @@ func TakeVouchedSeen() int64 {
 	return n
 }
 
-func init() {
-	chain.TrustedTxChecker = func(tx *btc.Tx) bool {
-		k := wire.DSHA(tx.SerializeNew())
-		vouchMu.Lock()
-		defer vouchMu.Unlock()
-		if vouched[k] {
-			VouchedSeen++
-			return true
+// installChecker puts the stand-in in front of whatever checker the binary already has (the real
+// client/txpool one when that package is linked in): either of them vouching makes the transaction trusted.
+var (
+	installOnce sync.Once
+	// OnVouch, when set, is told every transaction (full serialisation, with witness) the stand-in vouches for -
+	// C04 uses it to put the very same transactions into the real client/txpool.TransactionsToSend, so that
+	// the client's own txChecker is the one that answers.
+	OnVouch func(raw []byte)
+)
+
+func installChecker() {
+	installOnce.Do(func() {
+		prev := chain.TrustedTxChecker
+		chain.TrustedTxChecker = func(tx *btc.Tx) bool {
+			if prev != nil && prev(tx) {
+				vouchMu.Lock()
+				VouchedSeen++
+				vouchMu.Unlock()
+				return true
+			}
+			if OnVouch != nil {
+				return false // the real pool holds everything that was vouched for: it alone decides
+			}
+			k := wire.DSHA(tx.SerializeNew())
+			vouchMu.Lock()
+			defer vouchMu.Unlock()
+			if vouched[k] {
+				VouchedSeen++
+				return true
+			}
+			return false
 		}
-		return false
-	}
+	})
 }
 
 func (s *Sim) vouch(n *MNode) {
@@ -601,11 +627,30 @@ func (s *Sim) vouch(n *MNode) {
 	view := n.Parent.View
 	created := map[[36]byte]consensus.Coin{}
 	spentHere := map[[36]byte]bool{}
+	type item struct {
+		tx       *wire.Tx
+		poolOnly bool
+	}
+	var items []item
 	for ti, tx := range n.Block.Txs {
+		if ti == 0 {
+			id := tx.TxID()
+			for j, o := range tx.Out {
+				created[consensus.OutKey(id, uint32(j))] = consensus.Coin{Value: o.Value, Script: o.PkScript}
+			}
+			continue
+		}
+		items = append(items, item{tx, false})
+	}
+	for _, tx := range n.PoolTxs {
+		items = append(items, item{tx, true})
+	}
+	for _, it := range items {
+		tx := it.tx
 		id := tx.TxID()
-		if ti > 0 {
+		{
 			w := tx.WTxID()
-			ok := w[0]&1 == 1
+			ok := w[0]&1 == 1 || it.poolOnly
 			spent := make([]wire.TxOut, len(tx.In))
 			for j, in := range tx.In {
 				k := consensus.OutKey(in.PrevHash, in.PrevIndex)
@@ -613,10 +658,16 @@ func (s *Sim) vouch(n *MNode) {
 				if !have {
 					c, have = view[k]
 				}
-				if !have || spentHere[k] {
+				if !have || spentHere[k] && !it.poolOnly {
+					if it.poolOnly {
+						ok = false
+						break
+					}
 					return // the block cannot be connected: nothing after this point matters
 				}
-				spentHere[k] = true
+				if !it.poolOnly {
+					spentHere[k] = true
+				}
 				spent[j] = wire.TxOut{Value: c.Value, PkScript: c.Script}
 			}
 			for j := 0; ok && j < len(tx.In); j++ {
@@ -626,7 +677,13 @@ func (s *Sim) vouch(n *MNode) {
 				vouchMu.Lock()
 				vouched[w] = true
 				vouchMu.Unlock()
+				if OnVouch != nil {
+					OnVouch(tx.Serialize(true))
+				}
 			}
+		}
+		if it.poolOnly {
+			continue
 		}
 		for j, o := range tx.Out {
 			created[consensus.OutKey(id, uint32(j))] = consensus.Coin{Value: o.Value, Script: o.PkScript}
@@ -807,7 +864,21 @@ func (s *Sim) compare(when string) error {
 		return nil
 	}
 	if h != s.Tip.Idx.Hash {
-		return fmt.Errorf("after %s: node tip %x (height %d), model tip %x (height %d)", when, h[:6], height, s.Tip.Idx.Hash[:6], s.Tip.Idx.Height)
+		msg := fmt.Sprintf("after %s: node tip %x (height %d), model tip %x (height %d)", when, h[:6], height, s.Tip.Idx.Hash[:6], s.Tip.Idx.Height)
+		// the node sits on a branch that contains a block of the class of an open known finding (stored on a side
+		// branch first, connected by a later reorganisation): the same defect, seen later
+		for _, m := range s.Nodes {
+			if m.Idx.Hash != h {
+				continue
+			}
+			for a := m; a != nil && a.Parent != nil; a = a.Parent {
+				s.Valid(a)
+				if k := knownClass(a); k != "" && s.Open != nil && s.Open(k) {
+					return &Excluded{k, msg}
+				}
+			}
+		}
+		return fmt.Errorf("%s", msg)
 	}
 	if d := env.DiffEntries(s.Node.DumpUTXO(), env.EntriesOf(s.Tip.View)); d != "" {
 		return fmt.Errorf("after %s at tip %x (height %d): unspent-output set differs from the replay of the tip's chain:\n%s", when, h[:6], height, d)
@@ -845,6 +916,7 @@ type pending struct {
 type bctx struct {
 	bad, badPos int // position of the input built to fail (addTx with validLast=false)
 	pendingSign []pending
+	poolTxs     []*wire.Tx
 	s           *Sim
 	parent      *MNode
 	height      uint32
@@ -1195,6 +1267,7 @@ func (s *Sim) buildBlock(op Op) *MNode {
 		n.Raw = bv.raw
 	}
 	n.PreRaw = bv.preRaw
+	n.PoolTxs = c.poolTxs
 	n.Idx = parent.Idx.Child(&blk.Header)
 	for _, m := range s.Nodes {
 		if m.Idx.Hash == n.Idx.Hash {
